@@ -26,8 +26,8 @@ static inline mem_header_t *get_header(uint8_t *src) {
 _public_ void *m_mem_new(size_t size, m_ref_dtor dtor) {
     /* Always use maximum alignment for the platform */
     const size_t total_size = sizeof(mem_header_t) + size;
-    size_t total_size_aligned = ALIGN_UP(total_size);
-    uint8_t align_shift = total_size_aligned - total_size;
+    /* User data follows the header: it is the header that must be padded, whatever the user size */
+    uint8_t align_shift = ALIGN_UP(sizeof(mem_header_t)) - sizeof(mem_header_t);
     if (align_shift == 0) {
         /* Add a new aligned block; it is needed to later store alignment information */
         align_shift = alignof(max_align_t);
